@@ -238,13 +238,19 @@ Context {K V Q T : Type} (E : env K V Q T).
 Notation world := (world K V T). Notation map := (map K V). Notation kv := (K * V)%type.
 
 (* B7 (finding 7): ANY environment.  [made] = the identities returned by the
-   Clone calls of this very run (Owned2.clone_made replays them from cb w).
-   If none of them is an identity held by the source, then the clone and the
-   source share no identity; if a Clone panics, what the unwinding destroys is
-   no identity of the source either. *)
+   Clone calls of this very run that were written into the clone
+   (Owned2.clone_made replays them from cb w); [orphan] = the identities of the
+   key made by K::clone whose value's Clone then panicked (Owned2.clone_orphans;
+   [] when no Clone panics) - one more object made by this run, destroyed by the
+   unwinding.  If no identity of [made] is held by the source, then on normal
+   return the clone and the source share no identity.  If a Clone panics, the
+   abandoned clone holds nothing and what the unwinding destroyed (d) is exactly
+   made ++ orphan: no identity of the source either, as soon as the orphan key
+   is new as well. *)
 Lemma clone_disjoint_run (src : map) (w : world) :
   WF src -> WF (self w) -> len (self w) = 0 -> cap (self w) = cap src -> Tidy (self w) ->
   let made := flat_map (ids_pair E) (clone_made E src (len src) 0 (cb w)) in
+  let orphan := clone_orphans E src (len src) 0 (cb w) in
   (forall x, In x made -> ~ In x (owned E src)) ->
   wp (clone_from_src E src)
      (fun _ w' => WF (self w') /\ Tidy (self w') /\
@@ -252,21 +258,23 @@ Lemma clone_disjoint_run (src : map) (w : world) :
                   dropped (log w') = dropped (log w) /\
                   (forall x, In x (owned E (self w')) -> ~ In x (owned E src)) /\
                   (forall x, In x (owned E src) -> ~ In x (owned E (self w'))))
-     (fun w' => exists d, dropped (log w') = dropped (log w) ++ d /\
-                          (forall x, In x d -> ~ In x (owned E src)) /\
-                          (forall x, In x (owned E (self w')) -> ~ In x (owned E src)))
+     (fun w' => owned E (self w') = [] /\
+                exists d, dropped (log w') = dropped (log w) ++ d /\
+                          Permutation d (made ++ orphan) /\
+                          ((forall x, In x orphan -> ~ In x (owned E src)) ->
+                           forall x, In x d -> ~ In x (owned E src)))
      w.
 Proof.
-  intros Hsrc Hw Hl Hc Ht made Hfresh.
-  eapply wp_mono; [apply (clone_acct E src w Hsrc Hw Hl Hc Ht) | |]; cbn beta; fold made.
+  intros Hsrc Hw Hl Hc Ht made orphan Hfresh.
+  eapply wp_mono; [apply (clone_acct E src w Hsrc Hw Hl Hc Ht) | |]; cbn beta; fold made; fold orphan.
   - intros _ w' (Hw' & Ht' & _ & _ & Hd & HP).
     split; [exact Hw'|]. split; [exact Ht'|]. split; [exact HP|]. split; [exact Hd|].
     split.
     + intros x Hx. apply Hfresh. eapply Permutation_in; [exact HP | exact Hx].
     + intros x Hx Hx'. apply (Hfresh x); [eapply Permutation_in; [exact HP | exact Hx'] | exact Hx].
-  - intros w' (d & Hd & HP). exists d. split; [exact Hd|]. split.
-    + intros x Hx. apply Hfresh. eapply Permutation_in; [exact HP|]. apply in_or_app. right. exact Hx.
-    + intros x Hx. apply Hfresh. eapply Permutation_in; [exact HP|]. apply in_or_app. left. exact Hx.
+  - intros w' (Ho & d & Hd & HP). split; [exact Ho|]. exists d. split; [exact Hd|]. split; [exact HP|].
+    intros Horph x Hx. pose proof (Permutation_in x HP Hx) as Hin. apply in_app_or in Hin.
+    destruct Hin as [Hin|Hin]; [apply Hfresh; exact Hin | apply Horph; exact Hin].
 Qed.
 
 (* B8a (finding 8, destruction): destroying a container destroys only identities
@@ -398,6 +406,40 @@ Proof.
   specialize (IH (S i) s' x Hx). lia.
 Qed.
 
+Lemma clone_orphan_map_ge sc (p : key * vobj) s x :
+  In x (clone_orphan (env_map sc) p s) -> (next_id s <= x)%N.
+Proof.
+  unfold clone_orphan. cbn [env_map cloneK cloneV]. unfold clone_key_cb.
+  destruct (clone_tick sc s) as [o1 s1] eqn:H1. destruct (clone_tick_ge sc s o1 s1 H1) as [Hle1 Hi1].
+  destruct o1 as [i1|]; cbn [option_map]; [|intros []].
+  destruct (clone_tick sc s1) as [o2 s2] eqn:H2.
+  destruct o2 as [i2|]; cbn [option_map]; [intros []|].
+  destruct (Hi1 i1 eq_refl) as [-> _]. cbn [env_map idK kid In]. intros [<-|[]]. lia.
+Qed.
+
+Lemma clone_orphan_set_nil sc (p : key * unit) s : clone_orphan (env_set sc) p s = [].
+Proof.
+  unfold clone_orphan. cbn [env_set cloneK cloneV]. unfold clone_key_cb.
+  destruct (clone_tick sc s) as [o1 s1]. destruct o1; reflexivity.
+Qed.
+
+Lemma clone_orphans_map_ge sc (src : map key vobj) : forall n i s x,
+  In x (clone_orphans (env_map sc) src n i s) -> (next_id s <= x)%N.
+Proof.
+  induction n as [|n IH]; intros i s x Hx; cbn [clone_orphans] in Hx; [destruct Hx|].
+  destruct (nth_error (slots src) i) as [[p|]|]; try destruct Hx.
+  destruct (clone_pair_res (env_map sc) p s) as [[p'|] s'] eqn:Hr.
+  - destruct (clone_pair_res_map_ge sc p p' s s' Hr) as [Hle _]. specialize (IH (S i) s' x Hx). lia.
+  - apply (clone_orphan_map_ge sc p s x Hx).
+Qed.
+
+Lemma clone_orphans_set_nil sc (src : map key unit) : forall n i s, clone_orphans (env_set sc) src n i s = [].
+Proof.
+  induction n as [|n IH]; intros i s; cbn [clone_orphans]; [reflexivity|].
+  destruct (nth_error (slots src) i) as [[p|]|]; try reflexivity.
+  destruct (clone_pair_res (env_set sc) p s) as [[p'|] s']; [apply IH | apply clone_orphan_set_nil].
+Qed.
+
 (* ... so whenever the counter is above every identity held by the source, the
    hypothesis of clone_disjoint_run / clone_destruction_independent holds *)
 Lemma clone_fresh_env_map sc (src : map key vobj) (s : cstate) :
@@ -420,7 +462,8 @@ Lemma clone_disjoint_env_map sc (src : map key vobj) (w : world key vobj cstate)
      (fun _ w' => (forall x, In x (owned (env_map sc) (self w')) -> ~ In x (owned (env_map sc) src)) /\
                   (forall x, In x (owned (env_map sc) src) -> ~ In x (owned (env_map sc) (self w'))) /\
                   dropped (log w') = dropped (log w))
-     (fun w' => exists d, dropped (log w') = dropped (log w) ++ d /\
+     (fun w' => owned (env_map sc) (self w') = [] /\
+                exists d, dropped (log w') = dropped (log w) ++ d /\
                           forall x, In x d -> ~ In x (owned (env_map sc) src))
      w.
 Proof.
@@ -428,7 +471,8 @@ Proof.
   eapply wp_mono; [apply (clone_disjoint_run (env_map sc) src w Hsrc Hw Hl Hc Ht (clone_fresh_env_map sc src (cb w) Hlt)) | |];
     cbn beta.
   - intros _ w' (_ & _ & _ & Hd & H1 & H2). auto.
-  - intros w' (d & Hd & H1 & _). eauto.
+  - intros w' (Ho & d & Hd & _ & H1). split; [exact Ho|]. exists d. split; [exact Hd|]. apply H1.
+    intros x Hx Hin. pose proof (clone_orphans_map_ge sc src _ _ _ _ Hx). specialize (Hlt x Hin). lia.
 Qed.
 
 Lemma clone_disjoint_env_set sc (src : map key unit) (w : world key unit cstate) :
@@ -438,7 +482,8 @@ Lemma clone_disjoint_env_set sc (src : map key unit) (w : world key unit cstate)
      (fun _ w' => (forall x, In x (owned (env_set sc) (self w')) -> ~ In x (owned (env_set sc) src)) /\
                   (forall x, In x (owned (env_set sc) src) -> ~ In x (owned (env_set sc) (self w'))) /\
                   dropped (log w') = dropped (log w))
-     (fun w' => exists d, dropped (log w') = dropped (log w) ++ d /\
+     (fun w' => owned (env_set sc) (self w') = [] /\
+                exists d, dropped (log w') = dropped (log w) ++ d /\
                           forall x, In x d -> ~ In x (owned (env_set sc) src))
      w.
 Proof.
@@ -446,7 +491,8 @@ Proof.
   eapply wp_mono; [apply (clone_disjoint_run (env_set sc) src w Hsrc Hw Hl Hc Ht (clone_fresh_env_set sc src (cb w) Hlt)) | |];
     cbn beta.
   - intros _ w' (_ & _ & _ & Hd & H1 & H2). auto.
-  - intros w' (d & Hd & H1 & _). eauto.
+  - intros w' (Ho & d & Hd & _ & H1). split; [exact Ho|]. exists d. split; [exact Hd|]. apply H1.
+    intros x Hx. rewrite clone_orphans_set_nil in Hx. destruct Hx.
 Qed.
 
 (* B9 (finding 9): the Set analogue of FmtSerde.clone_honest_map *)
